@@ -295,3 +295,68 @@ def store(eng, st):
 _pred('coinbase_built', [INT, LIST(CLS('Transaction')), MAP(CLS('OutputReference'), CLS('Output')), BYTES, CLS('PublicKey')])
 _pred('summary_built', [CLS('CoinState'), LIST(CLS('Transaction')), INT, INT])
 _pred('candidate_built', [CLS('CoinState'), LIST(CLS('Transaction')), CLS('PublicKey'), INT, BYTES, INT])
+
+
+# ---- C11: the framing specification -----------------------------------------------------------------------------------
+# parse(s): the frames a byte string s contains, read from the left: magic 'MAJI', 4-byte big-endian length L <= limit,
+# L payload bytes; stops at the first incomplete frame (residue) or refuses at a wrong magic / over-limit length.
+
+FRAME_MAGIC = b'MAJI'                   # the statement's "magic"; compared with the code's constant by a lemma
+FRAME_LIMIT = 32 * 1024 * 1024          # networking/params.md: 32 MiB
+
+
+def _parse_ufs(eng):
+    from pyvc.types import BYTES_SORT
+    SB = z3.SeqSort(BYTES_SORT)
+    return (eng.uf('parse_ok', BYTES_SORT, z3.BoolSort()), eng.uf('parse_delivered', BYTES_SORT, SB),
+            eng.uf('parse_rest', BYTES_SORT, BYTES_SORT))
+
+
+def _parse_unfold(eng, s, st=None):
+    """ground instance of the defining equations of parse at the byte string s"""
+    from pyvc.types import BYTES_SORT
+    from pyvc.engine import bytes_term
+    ok, dl, rest = _parse_ufs(eng)
+    # (re-)instantiated at every mention: the path condition of the mentioning state may allow simpler slice terms
+    n = eng.norm_len(s, st)
+    magic_ok = eng.mk_extract(s, 0, 4, st) == bytes_term(FRAME_MAGIC)
+    lenbytes = eng.mk_extract(s, 4, 4, st)
+    L = eng.bytes_to_int(lenbytes, None, (4,)).t
+    empty = z3.Empty(z3.SeqSort(BYTES_SORT))
+    stop = z3.And(ok(s), dl(s) == empty, rest(s) == s)
+    refuse = z3.And(z3.Not(ok(s)), dl(s) == empty)
+    tail = eng.mk_extract(s, 8 + L, n - (8 + L), st)
+    payload = eng.mk_extract(s, 8, L, st)
+    eng.add_func_axiom(z3.Implies(n < 4, stop))
+    eng.add_func_axiom(z3.Implies(z3.And(n >= 4, z3.Not(magic_ok)), refuse))
+    eng.add_func_axiom(z3.Implies(z3.And(n >= 4, magic_ok, n < 8), stop))
+    eng.add_func_axiom(z3.Implies(z3.And(n >= 8, magic_ok, L > FRAME_LIMIT), refuse))
+    eng.add_func_axiom(z3.Implies(z3.And(n >= 8, magic_ok, L <= FRAME_LIMIT, n < 8 + L), stop))
+    eng.add_func_axiom(z3.Implies(z3.And(n >= 8, magic_ok, L <= FRAME_LIMIT, n >= 8 + L),
+                                  z3.And(ok(s) == ok(tail), dl(s) == z3.Concat(z3.Unit(payload), dl(tail)), rest(s) == rest(tail))))
+
+
+@GH.ghost('parse_ok')
+def parse_ok(eng, st, s):
+    t = eng.mk_concat(eng.term(s, BYTES, st))
+    _parse_unfold(eng, t, st)
+    return V(_parse_ufs(eng)[0](t), BOOL)
+
+
+@GH.ghost('parse_delivered')
+def parse_delivered(eng, st, s):
+    t = eng.mk_concat(eng.term(s, BYTES, st))
+    _parse_unfold(eng, t, st)
+    return V(_parse_ufs(eng)[1](t), LIST(BYTES))
+
+
+@GH.ghost('parse_rest')
+def parse_rest(eng, st, s):
+    t = eng.mk_concat(eng.term(s, BYTES, st))
+    _parse_unfold(eng, t, st)
+    return V(_parse_ufs(eng)[2](t), BYTES)
+
+
+@GH.ghost('pack4')
+def pack4(eng, st, x):
+    return eng.int_to_bytes(eng.term(x, INT), 4, st)
